@@ -193,15 +193,26 @@ def native_open_kinds(ck):
     cases = [('a missing file', 'MISSING', 'SyscallError_errno=2'), ('a directory', 'DIR', 'SyscallError_errno=21'), ('an empty file', '', 'SegmentNotInitialized'),
              ('a file truncated in the header (10 bytes)', hdr(72, 1, 2)[:10].hex(), 'SegmentNotInitialized'), ('garbage', ('ab' * 72), 'SegmentNotInitialized'),
              ('a valid segment', (hdr(72, 1, 2) + body).hex(), 'Ok'), ('generation 0', (hdr(72, 1, 0) + body).hex(), 'SegmentNotInitialized'),
-             ('version 0', (hdr(72, 0, 2) + body).hex(), 'SegmentNotInitialized'), ('declared size 40', (hdr(40, 1, 2) + body).hex(), 'SegmentMalformed')]
+             ('version 0', (hdr(72, 0, 2) + body).hex(), 'SegmentNotInitialized'), ('declared size 40', (hdr(40, 1, 2) + body).hex(), 'SegmentMalformed'),
+             # a live header that declares more than the file holds (pages beyond the end of the file are mapped but must not be touched)
+             ('a 72-byte file declaring 8192 bytes', (hdr(8192, 1, 2) + body).hex(), 'NOCRASH'), ('a 72-byte file declaring 16 MiB', (hdr(16 * 1024 * 1024, 1, 2) + body).hex(), 'NOCRASH')]
     rp = common.Replay('debug')
     bad = []
     outs = {}
     for name, arg, exp in cases:
-        out = rp.ask('open ' + arg)
+        try:
+            out = rp.ask('open ' + arg)
+        except common.Inconclusive:
+            # the process that opened the file was killed (e.g. SIGBUS): "never a crash"
+            out = 'reader=KILLED_BY_A_SIGNAL_(the_process_opening_the_file_died)'
+            rp = common.Replay('debug')
         outs[name] = out
         got = dict(x.split('=', 1) for x in out.split() if '=' in x).get('reader', out)
-        if not got.startswith(exp):
+        if exp == 'NOCRASH':
+            # accepted (the code maps what the header declares) or refused with an error kind: both are within the property; a crash is not
+            if 'KILLED' in got or 'panic' in got:
+                bad.append('ShmReader::new on %s: %s - opening a file never crashes the client' % (name, got[:120]))
+        elif not got.startswith(exp):
             bad.append('ShmReader::new on %s returns %s, documented: %s' % (name, got[:160], exp))
             if 'panic' in got or not out.startswith('reader='):
                 rp.close(); rp = common.Replay('debug')
